@@ -9,6 +9,7 @@ Open Scope Q_scope.
 Inductive case12 :=
 | KPdf (drawsW drawsRef : list draw) (toks : list ptok) (arcs : bool)
 | KPs (drawsW drawsRef : list draw) (toks : list pstok) (arcs : bool)
+| KSvg (drawsRef : list draw) (els : list svgel) (h : Q)
 | KBad12.
 
 (** numbers are printed with 8 decimals (dec): absolute 1e-7 plus relative 1e-7 (page matrix 2.8346457, float rounding) *)
@@ -62,6 +63,15 @@ Definition bit (b : bool) (k : Z) : Z := if b then k else 0%Z.
 
 (** flags of one paint operation (got, scaled by f into canvas mm) against the expected one *)
 Definition scale_geo (f : Q) (g : geo) : geo := map (fun s => (fst s, map (fun x => x * f) (snd s))) g.
+(** SVG: y points down on a page of height h *)
+Fixpoint flip_ys (h : Q) (l : list Q) : list Q :=
+  match l with x :: y :: r => x :: (h - y) :: flip_ys h r | _ => l end.
+Definition flip_geo (h : Q) (g : geo) : geo := map (fun s => (fst s, flip_ys h (snd s))) g.
+(** translucent colours are printed as rgba(int(R/a), ...): truncated to 1/255 *)
+Definition col_close255 (a b : col3) : bool :=
+  let '(a1, a2, a3) := a in let '(b1, b2, b3) := b in
+  let c x y := Qle_bool (Qabs (x - y)) ((1 # 255) + eps) in c a1 b1 && c a2 b2 && c a3 b3.
+
 Definition pop_flags (f : Q) (skipgeo : bool) (got want : pop) : Z :=
   let kind :=
     match pk got, pk want with
@@ -103,5 +113,16 @@ Definition judge (c : case12) : list Z :=
          the absolute unit is reported separately *)
       let pf := pops_flags 1 arcs got want in
       [bit tie 1; Z.lor pf (bit (has_bad got) 64); Z.of_nat (length got); Z.of_nat (length dr); n_fallback dr; bit arcs 2]
+  | KSvg dr els h =>
+      (* no writer model for SVG (no cache): property flags only. The elements are interpreted by exec_svg (SVG 1.1
+         defaults), the geometry flipped back to canvas space *)
+      let got := map (fun p => mkPop (pk p) (flip_geo h (pgeo p)) (pcol p) (palpha p)) (exec_svg els) in
+      let want := flat_map svg_spec dr in
+      let pf := pops_flags 1 false got want in
+      (* colours: exact for opaque ones, within 1/255 for rgba() *)
+      let colbad := negb (list_close (fun g w => col_close255 (pcol g) (pcol w)) got want) in
+      let pf := Z.lor (Z.land pf (Z.lnot 16)) (bit colbad 16) in
+      [0%Z; Z.lor pf (bit (has_bad got) 64); Z.of_nat (length got); Z.of_nat (length dr);
+       Z.of_nat (length (filter (fun d => has_stroke (dS d) && match native_stroke_svg d with None => true | _ => false end) dr)); 0%Z]
   | KBad12 => [512%Z; 0%Z; 0%Z; 0%Z; 0%Z; 0%Z]
   end.
